@@ -126,8 +126,10 @@ func (e *Engine) verifyFunction(fn *ssa.Function, fc *FuncContract) (c *Ctx) {
 				c.errorf("%s: requires %s: %v", rq.Where, rq.Tag(), err)
 				continue
 			}
+			c.curTag = rq.Label
 			c.fact(g)
 			c.noteHyp(rq.Expr, entryEv, "true")
+			c.curTag = ""
 		}
 		for _, u := range fc.Uses {
 			entryEv.useAxiom(u)
@@ -356,6 +358,10 @@ func (c *Ctx) globalAxioms() []string {
 		if !ax.Global {
 			continue
 		}
+		// axioms of a package-specific vocabulary apply to the functions of that package only
+		if ax.Pkg != "spec" && ax.Pkg != c.fn.Pkg.Pkg.Name() {
+			continue
+		}
 		ev := &EvalCtx{c: c, pkg: ax.Pkg, st: &State{cells: map[*ssa.Alloc]Val{}, heap: map[string]string{}, iters: map[ssa.Value]Val{}, ghosts: map[string]string{}}, vars: map[string]SVal{}, reach: "true"}
 		ev.old = ev.st
 		body := ax.Body
@@ -377,13 +383,23 @@ func (ob *Obligation) query(prelude string, gax []string) string {
 	var sb strings.Builder
 	sb.WriteString("; " + ob.Name + "\n")
 	sb.WriteString(prelude)
-	for _, a := range gax {
-		sb.WriteString("(assert " + a + ")\n")
-	}
 	for _, d := range c.decls {
 		sb.WriteString(d + "\n")
 	}
-	for _, f := range c.facts[:ob.NFact] {
+	for _, a := range gax {
+		sb.WriteString("(assert " + a + ")\n")
+	}
+	for k, f := range c.facts[:ob.NFact] {
+		if len(ob.Needs) > 0 && c.ftags[k] != "" {
+			// needs: "a,b" = only facts from clauses a,b (plus untagged); "~a,~b" = all but those
+			if strings.HasPrefix(ob.Needs[0], "~") {
+				if contains(ob.Needs, "~"+c.ftags[k]) {
+					continue
+				}
+			} else if !contains(ob.Needs, c.ftags[k]) {
+				continue
+			}
+		}
 		sb.WriteString("(assert " + f + ")\n")
 	}
 	sb.WriteString("(assert " + ob.Reach + ")\n")
